@@ -50,3 +50,10 @@ claim("C10", "other", "automata equivalence for the syntax stage (as C14) + pipe
       "by the runtime; (4) every message carries the unmodified line and column+1; (5) no __dict__ lookups on slotted objects, every accessor used on a typed context exists, names are definitely assigned.",
       "Not decided: 'never earlier than the first offending token' (viable-prefix property of the trusted ALL(*) runtime); nullness of accessor results on incomplete trees beyond accessor existence.",
       "DESIGN.md 5/C10")
+
+claim("C11", "other", "finite-model evaluation of dominating guards (membership, reserved-name alternatives from the grammar, value kinds) + raise-payload provenance + no-swallow lint",
+      "For each fault class the store/lookup/cast that would accept the faulty program is shown unreachable on every model: table lookups only for defined names (else BlackbirdSyntaxError with line, column, name); "
+      "declarations only for non-reserved names (alternatives of `invalid` read from the grammar); modes only for integer kinds; casts to int/float never for NumPy complex scalars; loop bindings only "
+      "after an equal cast; include expansion only for matching arity/keywords; and no handler on the load path absorbs an exception.",
+      "Trusted: library model of isinstance relations and of silent/raising casts (validated against the installed libraries in the thorough tier). Guards outside the evaluator's operator set are inconclusive.",
+      "DESIGN.md 5/C11")
